@@ -402,7 +402,7 @@ def _lambda_safe(lam):
 
 TOTAL_CALLS = {"len", "isinstance", "str", "repr", "type", "max", "min", "bool", "list", "dict", "set", "tuple", "any", "all", "sorted", "callable", "id", "hash", "round", "abs", "enumerate", "zip", "range"}
 TOTAL_METHODS = {"lower", "upper", "strip", "lstrip", "rstrip", "startswith", "endswith", "replace", "split", "join", "keys", "values", "items", "get", "append", "extend",
-                 "add", "time", "now", "utcnow", "isoformat", "format", "copy", "casefold", "isdigit", "find", "count", "title", "capitalize", "partition", "setdefault", "update"}
+                 "add", "time", "now", "utcnow", "isoformat", "format", "copy", "casefold", "isdigit", "find", "count", "title", "capitalize", "partition", "setdefault", "update", "_replace", "_asdict"}
 RAISING_CALLS = {"int", "float", "print_input", "json.loads", "ast.parse", "ast.literal_eval", "re.compile", "re.search", "re.match", "re.sub", "re.findall", "open", "next", "eval", "exec", "compile"}
 
 
@@ -420,7 +420,14 @@ def _may_raise(n, fi, callee_summary, res):
             continue
         todo.extend(ast.iter_child_nodes(x))
         if isinstance(x, ast.Subscript) and isinstance(x.ctx, ast.Load) and not isinstance(x.slice, ast.Slice):
-            return True
+            # a lookup in a dict display of this function by a key that only takes values written in the source
+            # (a row of a literal table) is part of a table-driven dispatch, not a data-dependent lookup
+            closed = False
+            if isinstance(x.value, ast.Name) and (isinstance(x.slice, ast.Constant) or res.closed_name(fi, x.slice)):
+                defs = [a.value for a in walk_no_nested(fi.node) if isinstance(a, ast.Assign) and len(a.targets) == 1 and isinstance(a.targets[0], ast.Name) and a.targets[0].id == x.value.id]
+                closed = len(defs) == 1 and isinstance(defs[0], ast.Dict)
+            if not closed:
+                return True
         if isinstance(x, ast.BinOp) and isinstance(x.op, (ast.Div, ast.FloorDiv, ast.Mod)) and not (isinstance(x.right, ast.Constant) and x.right.value) \
                 and not (isinstance(x.right, ast.BinOp) and isinstance(x.right.op, ast.Mult) and isinstance(x.right.right, ast.Constant)):
             # division by something that may be zero
@@ -448,6 +455,8 @@ def _may_raise(n, fi, callee_summary, res):
                 return True
             if d in TOTAL_CALLS or (isinstance(x.func, ast.Attribute) and last in TOTAL_METHODS):
                 continue
+            if d == "hasattr" or (d == "getattr" and (len(x.args) >= 3 or (len(x.args) == 2 and (isinstance(x.args[1], ast.Constant) or res.closed_name(fi, x.args[1]))))):
+                continue      # attribute lookup by a name written in the source (dispatch table) or with a default
             tgts = res.resolve_call(fi, x)
             if tgts:
                 # constructors of plain data classes are total; other package callees by their own summary
@@ -456,13 +465,18 @@ def _may_raise(n, fi, callee_summary, res):
                 if any(callee_summary(t) for t in tgts if t.name not in ("__init__", "__post_init__")):
                     return True
                 continue
-            if isinstance(x.func, ast.Name) and x.func.id[:1].isupper():
-                continue      # dataclass / enum constructors of the module
+            if isinstance(x.func, ast.Name) and (x.func.id[:1].isupper() or (res.class_by_name(x.func.id, fi.module) is not None and _is_value_class(res.class_by_name(x.func.id, fi.module)))):
+                continue      # dataclass / enum / NamedTuple constructors of the module
             if is_self_attr(x.func) or (isinstance(x.func, ast.Attribute) and last in ("execute", "func")):
                 return True   # stored callables / tools: arbitrary
             # unknown external call: conservatively may raise
             return True
     return False
+
+
+def _is_value_class(ci):
+    """a record class whose construction cannot fail on well-formed calls: NamedTuple, dataclass, or a class without its own __init__/__new__"""
+    return ci.is_dataclass() or any(b in ("NamedTuple",) for b in ci.bases) or not any(m in ci.methods for m in ("__init__", "__new__", "__post_init__"))
 
 
 def _is_computed_value(e, fi):
